@@ -44,6 +44,24 @@ Corollary produces_length_lower_bound c n :
   produces c n = Ok tt -> Z.log2_up n <= Z.of_nat (length c - 1).
 Proof. intros H. apply produces_iff in H as [Hc Hl]. now apply chain_length_lower_bound. Qed.
 
+(* every member of a chain, wherever it stands, is bounded by 2^(length - 1) *)
+Theorem chain_member_le_pow2 c x : is_chain c -> In x c -> x <= 2 ^ Z.of_nat (length c - 1).
+Proof.
+  intros Hc Hx. destruct (In_nz c x Hx) as (i & Hi & <-).
+  pose proof (chain_nz_le_pow2 c Hc i Hi) as H. pose proof (pow2_mono i (length c - 1) ltac:(lia)). lia.
+Qed.
+
+(* addition sequences: a chain the validator accepts as containing the targets ts is at least
+   log2_up t + 1 long for every target t *)
+Corollary superset_length_lower_bound c ts :
+  superset c ts = Ok tt -> forall t, In t ts -> Z.log2_up t <= Z.of_nat (length c - 1).
+Proof.
+  intros H t Ht. apply superset_iff in H as [Hc Hs]. pose proof (chain_member_le_pow2 c t Hc (Hs t Ht)) as B.
+  destruct (Z.le_gt_cases t 1) as [H1|H1].
+  - rewrite Z.log2_up_eqn0 by exact H1. lia.
+  - apply Z.log2_up_le_pow2; lia.
+Qed.
+
 (* non-vacuity: the doubling chain meets the bound with equality *)
 Example bound_tight : produces [1; 2; 4; 8; 16] 16 = Ok tt /\ Z.log2_up 16 = Z.of_nat (length [1; 2; 4; 8; 16] - 1).
 Proof. split; vm_compute; reflexivity. Qed.
